@@ -11,8 +11,8 @@ cd $WT || exit 2
 git checkout -q -- . ; rm -f */tests/zz_demo.rs
 [ -f Cargo.lock ] || cp /repo/Cargo.lock .
 run_demo() {
-  if [ -d "$OUT/demo" ]; then (cd $OUT/demo && CARGO_TARGET_DIR=$WT/target-demo cargo run --offline -q 2>&1 | tail -5; exit ${PIPESTATUS[0]})
-  else cp $OUT/$DEMO $WT/$CRATE/tests/zz_demo.rs; cargo test -q -p $CRATE --test zz_demo --offline 2>&1 | tail -15 | grep -E "test result|panicked|FAILED|error" | head -5; r=${PIPESTATUS[0]}; rm -f $WT/$CRATE/tests/zz_demo.rs; return $r; fi
+  if [ -d "$OUT/demo" ]; then (cd $OUT/demo && export CARGO_TARGET_DIR=$WT/target-demo && if [ -d tests ]; then cargo test --offline -q > /var/tmp/seeddemo.log 2>&1; r=$?; else cargo run --offline -q > /var/tmp/seeddemo.log 2>&1; r=$?; fi; tail -5 /var/tmp/seeddemo.log; exit $r)
+  else mkdir -p $WT/$CRATE/tests; cp $OUT/$DEMO $WT/$CRATE/tests/zz_demo.rs; cargo test -q -p $CRATE --test zz_demo --offline 2>&1 | tail -15 | grep -E "test result|panicked|FAILED|error" | head -5; r=${PIPESTATUS[0]}; rm -f $WT/$CRATE/tests/zz_demo.rs; return $r; fi
 }
 echo "== demo on unmodified tree"; run_demo; A=$?
 git apply $OUT/patch.diff || { echo "patch does not apply"; exit 2; }
